@@ -321,3 +321,77 @@ def register(ex):
         return lean_bool(hits[0]) if len(hits) == 1 else None
 
     ex.probe("ppoRatioNewMinusOld", "Bool", "true", "ppo.py:PPO.shared_step  `ratio = torch.exp(ll.sum(dim=-1) - sub_td['logprobs'])`: new minus old", ppo_new_minus_old)
+
+    # ---- stepwise PPO policy (L2DPolicy4PPO.act / .evaluate) and StepwisePPO.update -------------------------------------
+    L2 = "rl4co/models/zoo/l2d/policy.py"
+    SP = "rl4co/models/rl/ppo/stepwise_ppo.py"
+    PL_NAMES = ("logits", "mask", "temperature", "top_p", "top_k", "tanh_clipping", "mask_logits")
+
+    def pl_args(qual):
+        """the option arguments of the (single) `process_logits(logits, mask, …)` call of `qual`, as sorted `name=expr` strings"""
+
+        def run():
+            f = fn(L2, qual)
+            if f is None:
+                return None
+            calls = [n for n in ast.walk(f) if isinstance(n, ast.Call) and ex.norm(n.func).split(".")[-1] == "process_logits"]
+            if len(calls) != 1:
+                return None
+            c = calls[0]
+            if any(isinstance(a, ast.Starred) for a in c.args) or any(k.arg is None for k in c.keywords) or len(c.args) > len(PL_NAMES):
+                return None
+            items = [f"{PL_NAMES[i]}={ex.norm(a)}" for i, a in enumerate(c.args)] + [f"{k.arg}={ex.norm(k.value)}" for k in c.keywords]
+            items = sorted(it for it in items if not it.startswith(("logits=", "mask=")))
+            return "[" + ", ".join('"' + it.replace('"', "'") + '"' for it in items) + "]"
+
+        return run
+
+    dflt = '["tanh_clipping=self.tanh_clipping"]'
+    ex.probe("stepwiseActOpts", "List String", dflt, "l2d/policy.py:L2DPolicy4PPO.act  option arguments of `process_logits(logits, mask, …)`", pl_args("L2DPolicy4PPO.act"))
+    ex.probe("stepwiseEvalOpts", "List String", dflt, "l2d/policy.py:L2DPolicy4PPO.evaluate  option arguments of `process_logits(logits, mask, …)`", pl_args("L2DPolicy4PPO.evaluate"))
+
+    def stepwise_ratio():
+        tree = ex.parse(SP)
+        f = ex.find_function(tree, "StepwisePPO.update") if tree else None
+        if f is None:
+            return None
+        hits = []
+        for n in ast.walk(f):
+            if isinstance(n, ast.Call) and ex.norm(n.func) == "torch.exp" and n.args and isinstance(n.args[0], ast.BinOp):
+                b = n.args[0]
+                l, r = ex.norm(b.left), ex.norm(b.right)
+                if isinstance(b.op, ast.Sub) and l == "logprobs" and r.startswith("previous_logp"):
+                    hits.append(True)
+                elif {l.split(".")[0], r.split(".")[0]} == {"logprobs", "previous_logp"}:
+                    hits.append(False)
+        return lean_bool(hits[0]) if len(hits) == 1 else None
+
+    ex.probe("stepwiseRatioNewMinusOld", "Bool", "true", "stepwise_ppo.py:StepwisePPO.update  `ratios = torch.exp(logprobs - previous_logp)`", stepwise_ratio)
+
+    # ---- which start rule the hooks apply (no custom select_start_nodes_fn) ------------------------------------------------
+    def start_rule(qual):
+        """`env.select_start_nodes(…)` (the environment's own, possibly overridden rule) vs the generic helper
+        `select_start_nodes(…)` of utils/ops.py"""
+
+        def run():
+            f = fn(D, qual)
+            if f is None:
+                return None
+            env_rule = generic = False
+            for n in ast.walk(f):
+                if isinstance(n, ast.Attribute) and n.attr == "select_start_nodes" and ex.norm(n.value) == "env":
+                    env_rule = True
+                elif isinstance(n, ast.Name) and n.id == "select_start_nodes":
+                    generic = True
+            if env_rule and not generic:
+                return "true"
+            if generic and not env_rule:
+                return "false"
+            return None
+
+        return run
+
+    ex.probe("preStartFromEnvRule", "Bool", "true", "decoding.py:DecodingStrategy.pre_decoder_hook  `action = env.select_start_nodes(td, num_starts=self.num_starts)` (the environment's rule, not the generic helper)",
+             start_rule("DecodingStrategy.pre_decoder_hook"))
+    ex.probe("beamStartFromEnvRule", "Bool", "true", "decoding.py:BeamSearch.pre_decoder_hook  `action = env.select_start_nodes(td, num_starts=self.beam_width)` (the environment's rule, not the generic helper)",
+             start_rule("BeamSearch.pre_decoder_hook"))
